@@ -3,6 +3,7 @@ from ..ir import E
 from .. import q
 from ..fsm import state_outcomes, guard_atoms
 from ..hdl import class_attr
+from ..num import Stepper, NoEval
 
 TITLE = 'gateware FS PHY'
 FLOOR = 30
@@ -18,10 +19,12 @@ DECIDES = ('(a) no assignment that can enable the D+/D- output drivers is live w
            '~(dk ^ last), se0 = ~dj & ~dk; (e) bit order: TxShifter emits bit 0 and shifts right; RxShifter + pipeline '
            'deliver the first received bit in bit 0; SYNC is seven 0s then a 1; the byte-accept strobe (o_get) is frozen while '
            'the bit stuffer stalls, matching the ~stall gating at its consumer; (f) receive framing wiring. ')
-NOT_DECIDED = 'clock/data recovery within the USB clock tolerance (value/timing-level), FIFO crossing latency.'
+NOT_DECIDED = ('jitter inside a bit (edges closer than 3 sampling cycles), the analogue side of the pads, FIFO crossing latency; the '
+               'NRZI / bit-stuff / shifter stages of the receive pipeline beyond the clauses above.')
 
 
 def run(ctx):
+    _cdr(ctx)
     idx = ctx.index
     # ---------------------------------------------------------------- (a) operating modes
     ir = ctx.ir('GatewarePHY', 'gateware_phy.phy')
@@ -277,3 +280,67 @@ def _nrzi_tx(ctx):
     for o in ('o_oe', 'o_usbp', 'o_usbn'):
         ds = ir.drivers('self.' + o, exact=True)
         ctx.ob('C25.nrzi-tx', 'TxNRZIEncoder.' + o, len(ds) == 1 and ds[0].rhs.canon() == o[2:], None, 'registered output')
+
+
+def _cdr(ctx):
+    """(g) clock/data recovery, decided on the extracted transition relation by an exhaustive fixpoint: the recovered-bit
+    strobe line_state_valid of RxClockDataRecovery composed with a monitor (cycles D since the last transition cycle,
+    strobes n since then) is explored from reset under ALL values of the synchronised D+/D- pair in every cycle.  Whenever
+    a new transition is recognised D cycles after the previous one with D = 4k-1, 4k or 4k+1 (a bit time is 4 sampling
+    cycles; the USB clock tolerance plus sampling phase moves an edge by at most one cycle), exactly k bits have been
+    strobed -- none lost to an early edge, none doubled by a late one; and a strobe always shows a settled line state."""
+    ir = ctx.ir('RxClockDataRecovery', 'gateware_phy.receiver')
+    fsm = ctx.the_fsm(ir)
+    VALID = 'self.line_state_valid'
+    LS = ['self.line_state_dj', 'self.line_state_dk', 'self.line_state_se0', 'self.line_state_se1']
+    for n_ in [VALID] + LS:
+        ctx.need(n_ in ir.signals, 'RxClockDataRecovery.%s' % n_)
+    clr = [a for a in ir.drivers(VALID, exact=True) if q.is_zero(a.rhs)]
+    tr = {x for a in clr for x, p in q.atoms(a) if p and x in ir.signals}
+    ctx.need(len(tr) == 1, 'the transition flag that suppresses line_state_valid (found %s)' % sorted(tr))
+    TR = tr.pop()
+    st = Stepper(ir)
+    # the synchronised pair (outputs of the two FFSynchronizers) is a free input of the exploration
+    free = [a.lhs.canon() for a in st.sync if isinstance(a.rhs, E) and a.rhs.op == 'call' and a.rhs.args and a.rhs.args[0] == 'ffsync']
+    ctx.need(len(free) == 2, 'the two synchronised line inputs of RxClockDataRecovery (found %s)' % free)
+    st.sync = [a for a in st.sync if a.lhs.canon() not in free]
+    st.regs = [r for r in st.regs if r not in free]
+    key = '$fsm%s' % (fsm.id,)
+    DMAX = 4 * 7 + 2                      # bit stuffing: at most 7 bit times without an edge inside a packet
+    init = (tuple(st.inits.get(r, 0) for r in st.regs), fsm.init, None, 0)
+    seen, work, bad, badv, n_eval, checked = {init}, [init], None, None, 0, set()
+    while work and (bad is None or badv is None):
+        regs, fs, D, n = work.pop()
+        for v in range(4):
+            env = dict(zip(st.regs, regs))
+            env.update({key: fs, free[0]: v & 1, free[1]: v >> 1})
+            try:
+                cur, nxt = st.step(env)
+            except NoEval as ex:
+                ctx.need(False, 'RxClockDataRecovery evaluates from the synchronised pair alone (%s)' % ex)
+            n_eval += 1
+            valid = cur.get(VALID, 0)
+            if valid and sum(cur.get(x, 0) for x in LS) != 1 and badv is None:
+                badv = 'line_state_valid is raised while the line state outputs are %s (state %s)' % ({x.split('.')[-1]: cur.get(x, 0) for x in LS}, fs)
+            Dc = None if D is None else min(D + 1, DMAX + 1)
+            nc = n + (1 if valid else 0)
+            if cur.get(TR, 0):
+                if Dc is not None and 3 <= Dc <= DMAX and Dc % 4 in (3, 0, 1):
+                    checked.add(Dc)
+                    want = (Dc + 1) // 4
+                    if nc != want and bad is None:
+                        bad = 'a transition recognised %d cycles after the previous one (%d bit time(s)) saw %d bit strobe(s), expected %d' % (Dc, want, nc, want)
+                Dn, nn = 0, 0
+            else:
+                Dn, nn = Dc, (nc if Dc is not None and Dc <= DMAX else 0)
+            nx = (tuple(nxt[r] for r in st.regs), nxt[key], Dn, min(nn, 9))
+            if nx not in seen:
+                seen.add(nx)
+                work.append(nx)
+    ctx.need(bad is not None or len(checked) >= 3 * 7, 'the exploration reached every edge distance 3..29 (reached %s)' % sorted(checked))
+    loc = ir.drivers(VALID, exact=True)[0].loc
+    ctx.ob('C25.cdr-bit-count', 'RxClockDataRecovery.line_state_valid.bits-per-interval', bad is None, loc,
+           'between two recognised transitions D = 4k-1, 4k or 4k+1 sampling cycles apart exactly k bits are strobed, for every input '
+           'sequence (%d product states, %d evaluations, distances %s): %s' % (len(seen), n_eval, sorted(checked)[:3] + ['...'], bad or 'holds'))
+    ctx.ob('C25.cdr-bit-count', 'RxClockDataRecovery.line_state_valid.settled', badv is None, loc,
+           'a strobed bit shows exactly one of J / K / SE0 / SE1: %s' % (badv or 'holds'))
